@@ -59,6 +59,9 @@ def read_cmds(size, widths, quick, rng=None, off=0):
         cmds.append("sget %d %d %s %s" % (size, off, sm, ws))
     if rng is not None and size > 0:
         cmds.append("sget %d %d %s %s" % (size, off, rand_seg(rng, size), ws))
+        # the same through a window spliced out of a larger block (the buffer the reader is given ends inside a
+        # segment that goes on: running out of data is still reported, nothing beyond the window is returned)
+        cmds.append("sget %d %d w%d.%d:%s %s" % (size, off, rng.below(4), 1 + rng.below(5), rand_seg(rng, size), ws))
     cmds.append("oget %d %d %s" % (size, off, ws))
     return cmds
 
